@@ -251,6 +251,24 @@ func c17Subjects() []c17Subject {
 		mkLimit("traced(gradient2)", func() core.Limit {
 			return limit.NewTracedLimit(limit.NewDefaultGradient2Limit("t", nil, nil), limit.NoopLimitLogger{})
 		}),
+		// wrappers whose delegate is also used directly (the caller keeps the settable / algorithm it wrapped): the
+		// delegate's estimate moves through its own API while listeners are registered and samples arrive through the wrapper
+		{"windowed(settable)+delegate", func() ([]c17Method, func()) {
+			d := limit.NewSettableLimit("t", 10, reg())
+			w, _ := limit.NewWindowedLimit("w", 1e8, 1e8, 10, 0, d, reg())
+			return limitMethods(w, c17Method{"Delegate.SetLimit", true, func(g, a int) { d.SetLimit(1 + a%20) }},
+				c17Method{"Delegate.NotifyOnChange", true, func(g, a int) { d.NotifyOnChange(func(int) {}) }}), func() {}
+		}},
+		{"windowed(aimd)+delegate", func() ([]c17Method, func()) {
+			d := limit.NewAIMDLimit("t", 10, 0.9, 1, nil)
+			w, _ := limit.NewWindowedLimit("w", 1e8, 1e8, 10, 0, d, nil)
+			return limitMethods(w, c17Method{"Delegate.OnSample", true, func(g, a int) { d.OnSample(0, int64(1+a%9), 10+a%20, a%7 == 0) }}), func() {}
+		}},
+		{"traced(settable)+delegate", func() ([]c17Method, func()) {
+			d := limit.NewSettableLimit("t", 10, reg())
+			w := limit.NewTracedLimit(d, limit.NoopLimitLogger{})
+			return limitMethods(w, c17Method{"Delegate.SetLimit", true, func(g, a int) { d.SetLimit(1 + a%20) }}), func() {}
+		}},
 	}
 	// two independent instances of one type used by different goroutines (they must not share hidden state)
 	mkTwo := func(name string, f func() core.Limit) c17Subject {
